@@ -1,9 +1,10 @@
 import HailVerif.Model.Bunch
+import HailVerif.Model.Submit
 import HailVerif.Model.DriverUtil
-open HailVerif HailVerif.DriverUtil
+open HailVerif HailVerif.DriverUtil HailVerif.Submit
 
 /-- line: `maxBytes maxN nGroups size*`; answer: bunches of spec indices `0,1|2|...`, `empty`, or `err` -/
-def handle (line : String) : String :=
+def handlePure (line : String) : String :=
   match nats? (words line) with
   | some (maxBytes :: maxN :: nGroups :: sizes) =>
     let specs : List (Nat × Nat) := sizes.zipIdx
@@ -15,4 +16,56 @@ def handle (line : String) : String :=
     | some bs => joinWith "|" (bs.map fun b => joinWith "," (b.map fun p => toString p.2))
   | _ => "bad-op"
 
-def main : IO Unit := mapLines handle
+/-- a spec of the caller-level cases: (uid, byte size) -/
+abbrev Spec := Nat × Nat
+
+structure DState where
+  st : St Spec
+  next : Nat          -- next uid
+
+def uids (xs : List (Typ × Spec)) (t : Typ) : List (Typ × Spec) := xs.filter fun p => p.1 == t
+def ids (xs : List (Typ × Spec)) : String := joinWith "," (xs.map fun p => toString p.2.1)
+def nbytes (xs : List (Typ × Spec)) : Nat := (xs.map fun p => p.2.2).sum
+
+/-- the requests of one submit: one bunch → the fast route `F[g:…|j:…]@bytes`; several → job-group posts of every
+bunch in order, then job posts (`G[…]@b … J[…]@b …`); none → `open` (first submit) -/
+def render (wasCreated : Bool) (w : Wire Spec) : String :=
+  let head := s!"{if wasCreated then "upd" else "new"} n={w.announcedGroups},{w.announcedJobs}"
+  match w.bunches with
+  | [] => head ++ " open"
+  | [b] => head ++ s!" F[g:{ids (uids b .group)}|j:{ids (uids b .job)}]@{nbytes b}"
+  | bs =>
+    let gs := (bs.map fun b => uids b .group).filter (· ≠ [])
+    let js := (bs.map fun b => uids b .job).filter (· ≠ [])
+    head ++ " " ++ joinWith " " ((gs.map fun b => s!"G[{ids b}]@{nbytes b}") ++ (js.map fun b => s!"J[{ids b}]@{nbytes b}"))
+
+/-- `round <maxBytes> <maxN> <g<size>|j<size>>*`: create the job groups / jobs in that order, then `submit` -/
+def handleRound (d : DState) (ws : List String) : Option (DState × String) := do
+  match ws with
+  | mb :: mn :: ops =>
+    let maxBytes ← mb.toNat?
+    let maxN ← mn.toNat?
+    let d ← ops.foldlM (fun (d : DState) (o : String) => do
+      let size ← (o.drop 1).toNat?
+      let spec : Spec := (d.next, size)
+      if o.startsWith "g" then pure { st := (step (fun p : Spec => p.2) d.st (.createGroup spec)).1, next := d.next + 1 }
+      else if o.startsWith "j" then pure { st := (step (fun p : Spec => p.2) d.st (.createJob spec)).1, next := d.next + 1 }
+      else none) d
+    let (st', r) := step (fun p : Spec => p.2) d.st (.submit maxBytes maxN)
+    let out := match r with
+      | some .raised => "raised"
+      | some .quiet => "quiet"
+      | some (.sent w) => render d.st.created w
+      | none => "bad-op"
+    pure ({ d with st := st' }, out)
+  | _ => none
+
+def stepLine (d : DState) (line : String) : DState × String :=
+  match words line with
+  | "round" :: rest =>
+    match handleRound d rest with
+    | some r => r
+    | none => (d, "bad-op")
+  | _ => (d, handlePure line)
+
+def main : IO Unit := foldLines ({ st := St.init, next := 1 } : DState) stepLine
